@@ -12,7 +12,7 @@ PROPS = ["C02_convergence.v", "C01_matrix.v", "C04_step_system.v"]
 T_END = 0.5
 
 
-def ladder(kind, ratio, nxs, table=None, grid="quadratic"):
+def ladder(kind, ratio, nxs, table=None, grid="quadratic", reverse_rows=False):
     """errors of field (max over nodes, relative to u_i - u_f) and of both recoveries at T_END"""
     out = []
     for nx in nxs:
@@ -23,6 +23,8 @@ def ladder(kind, ratio, nxs, table=None, grid="quadratic"):
         else:
             pi = float(table["pressure"][-2])
             c = dict(kind="single", table=table, pi=pi, pf=max(pi * ratio, float(table["pressure"][1])), nx=nx, times=t)
+            if reverse_rows:
+                c["reverse_rows"] = True
         im = rescorr.run_impl(c)
         if "field" not in im:
             out.append(dict(nx=nx, error=im.get("error")))
@@ -81,20 +83,32 @@ def run(ctx):
             judge(f"{kind} r={ratio}", rerr, inp, 2.5, "flux recovery vs Fourier series")
     # ---------------- pressure-dependent diffusivity: independent method-of-lines reference
     tables = [("shipped", rescorr.shipped_gas(stride=6))] + ([] if ctx.quick else [("ideal-gas", rescorr.synth_table("ideal", 80)), ("haynesville", rescorr.shipped_haynesville(stride=8))])
-    for tname, tb in tables:
-      for grid in ("quadratic", "uniform"):   # equal steps too: a coefficient frozen between equal steps must show
-        for ratio in ((0.2,) if ctx.quick else (0.05, 0.5, 0.9)):
-            lad = ladder("single", ratio, nxs, tb, grid)
+    # the same table with its rows listed by decreasing pressure must give the same answers (the library's lookups sort)
+    tables = [(n, t, False) for n, t in tables] + [(tables[0][0] + " (rows by decreasing pressure)", tables[0][1], True)]
+    for tname, tb, rev in tables:
+      for grid in (("quadratic",) if rev else ("quadratic", "uniform")):   # equal steps too: a coefficient frozen between equal steps must show
+        for ratio in ((0.2,) if ctx.quick or rev else (0.05, 0.5, 0.9)):
+            lad = ladder("single", ratio, nxs, tb, grid, reverse_rows=rev)
             ev += len(lad)
             inp = dict(kind="single", table=tname, time_grid=grid, p_frac_over_p_initial=ratio, nx_ladder=list(nxs), t_end=T_END)
             if any("field" not in r for r in lad):
                 bad("simulation fails on the refinement ladder", inp, [r.get("error") for r in lad])
                 continue
-            fp = lad[0]["fp"]
-            a_i = float(fp.alpha(fp.m_i))
+            # the reference problem is built from the TABLE, independently of the library's lookups: scaled pseudopressure
+            # m * (c mu z / 2p)(p_i), diffusivity 1/(c mu) interpolated in it and held at its extreme values outside
+            pt = np.asarray(tb["pressure"], float)
+            s_i = float(np.interp(lad[0]["case"]["pi"], pt, tb["compressibility"] * tb["viscosity"] * tb["z-factor"] / (2 * pt)))
+            msc = np.asarray(tb["pseudopressure"], float) * s_i
+            atab = 1.0 / (np.asarray(tb["compressibility"], float) * np.asarray(tb["viscosity"], float))
+            ui_t, uf_t = float(np.interp(lad[0]["case"]["pi"], pt, msc)), float(np.interp(lad[0]["case"]["pf"], pt, msc))
+            alpha_t = lambda u: np.interp(u, msc, atab, left=atab.min(), right=atab.max())
+            a_i = float(alpha_t(ui_t))
+            if not (dom.relclose(ui_t, lad[0]["ui"], 1e-9) and dom.relclose(uf_t, lad[0]["uf"], 1e-9, 1e-12)):
+                bad("initial / frac-face scaled pseudopressure differ from the table's (m c mu z / 2p at p_i)", inp,
+                    dict(m_i=lad[0]["ui"], m_f=lad[0]["uf"], table_m_i=ui_t, table_m_f=uf_t))
             with warnings.catch_warnings():
                 warnings.simplefilter("ignore")
-                xr, ur = refsol.mol_reference(lambda u: fp.alpha(u) / a_i, lad[0]["ui"], lad[0]["uf"], T_END, nref=240 if ctx.quick else 480)
+                xr, ur = refsol.mol_reference(lambda u: alpha_t(u) / a_i, ui_t, uf_t, T_END, nref=240 if ctx.quick else 480)
             ferr = []
             for r in lad:
                 ex = np.interp(np.minimum(r["x"], 2 - r["x"]), np.concatenate([[0.0], xr]), np.concatenate([[r["uf"]], ur]))
